@@ -85,7 +85,9 @@ impl<'a, TPrinter: Printer> FileExecutor<'a, TPrinter> {
                     break;
                 }
 
-                if let Ok(line) = line {
+                // A line that cannot be read (I/O error, invalid UTF-8) is reported, not silently treated as the end of the file
+                let line = line.map_err(|err| ExecutionError::FailReadFile(format!("{}", err)))?;
+                {
                     self.statistics.total_lines += 1;
                     self.statistics.ingested_bytes += line.len() + 1; // +1 for line ending
 
@@ -100,8 +102,6 @@ impl<'a, TPrinter: Printer> FileExecutor<'a, TPrinter> {
                     if output.reached_limit {
                         break;
                     }
-                } else {
-                    break;
                 }
             }
         }
